@@ -80,8 +80,9 @@ def structural(ctx, rng, count, all32):
             ctx.traces_validated += 1
 
 
-def audit_instance(ctx, rng, inst, settings):
-    """solve max gamma s.t. c - gamma*e_k in SAGE(alpha, X); check the exposed certificate. Returns violation or None"""
+def audit_instance(ctx, rng, inst, settings, direction=None):
+    """optimise a linear function of the user variables s.t. c(w) in SAGE(alpha, X), |w| <= 3; check the exposed certificate.
+    Returns violation or None"""
     import sageopt.coniclifts as cl
     alpha = np.array([[float(F(x)) for x in r] for r in inst['alpha']], dtype=float)
     m, n = alpha.shape
@@ -91,7 +92,7 @@ def audit_instance(ctx, rng, inst, settings):
     if b.user is not None:
         cons.append(b.user <= 3)
         cons.append(b.user >= -3)
-        obj = -1.0 * cl.sum(b.user)
+        obj = -1.0 * cl.sum(b.user) if direction is None else cl.Expression(np.array(direction, dtype=float)) @ b.user
     else:
         return None
     try:
@@ -134,6 +135,28 @@ def run(ctx):
     ctx.lean = common.lean_check('C01')
     quick = ctx.quick()
     structural(ctx, rng, 150 if quick else 600, all32=not quick)
+    # targeted search: the instances on which model and implementation disagree are audited first, under several objectives
+    seen = set()
+    for d in ctx.disagreements[:60]:
+        c = d['case']
+        inst, s = c['inst'], c['settings']
+        key = common.canon_json([inst, s])
+        if key in seen or inst['nuser'] == 0 or (inst['X'] is not None and inst['X']['N'] != inst['n']):
+            continue
+        seen.add(key)
+        for k in range(6):
+            direction = None if k == 0 else [rng.choice([-1.0, 1.0, 0.5, -2.0]) for _ in range(inst['nuser'])]
+            try:
+                why = audit_instance(ctx, rng, inst, s, direction)
+            except Exception as e:  # noqa: BLE001
+                ctx.incon('targeted audit construction: %s' % type(e).__name__)
+                continue
+            ctx.count('stream:audit-targeted')
+            if why:
+                ctx.violation('certificate: ' + why, {'stream': 'audit', 'inst': inst, 'settings': s, 'direction': direction})
+                break
+        if len(ctx.violations) >= 3:
+            break
     # audit stream
     naudit = 40 if quick else 300
     done = 0
@@ -177,7 +200,7 @@ def replay(obj):
 
             def count(self, *a):
                 pass
-        why = audit_instance(C(), random.Random(0), r['inst'], r['settings'])
+        why = audit_instance(C(), random.Random(0), r['inst'], r['settings'], r.get('direction'))
         print('re-audit:', why or 'ok')
         return 1 if why else 0
     return 1
